@@ -160,6 +160,33 @@ Definition goal_in_closure (rules : list brule) (f : facts) (g : bcond) : bool :
                      (op_eval (b_op g) (snd kv) (b_val g)
                       || match b_val g, snd kv with VNum n, VInt _ => is_whole_small n && op_eval (b_op g) (snd kv) (VInt (f_to_i64 n)) | _, _ => false end)) D.
 
+(** closed sets of atoms: the forward closure is the least set of atoms that contains the facts and is closed under the rules *)
+Definition scalar (v : value) : Prop := match v with VObj _ => False | _ => True end.
+Definition flat (f : facts) : Prop := forall k v, fget f k = Some v -> scalar v.
+
+Definition positive_op (o : oper) : bool := match o with ONe | ONotContains => false | _ => true end.
+Fixpoint positive (g : bgroup) : bool :=
+  match g with BSingle c => positive_op (b_op c) | BAnd a b | BOr a b => positive a && positive b end.
+
+Definition holdsD (D : atoms) (c : bcond) : Prop := exists v, In (b_field c, v) D /\ op_eval (b_op c) v (b_val c) = true.
+Fixpoint gholdsD (D : atoms) (g : bgroup) : Prop :=
+  match g with BSingle c => holdsD D c | BAnd a b => gholdsD D a /\ gholdsD D b | BOr a b => gholdsD D a \/ gholdsD D b end.
+Definition closedD (rules : list brule) (D : atoms) : Prop :=
+  forall r, In r rules -> gholdsD D (br_cond r) -> forall kv, In kv (br_sets r) -> In kv D.
+Definition covers (D : atoms) (f : facts) : Prop := flat f /\ forall k v, fget f k = Some v -> In (k, v) D.
+Definition horn (rules : list brule) : Prop :=
+  forall r, In r rules -> positive (br_cond r) = true /\ forall kv, In kv (br_sets r) -> scalar (snd kv).
+
+(** the goal test depends on the store only through the value found for the goal's field *)
+Definition goal_sat (o : option value) (g : bcond) : bool :=
+  let g' := match b_val g, o with
+            | VNum n, Some (VInt _) => if is_whole_small n then {| b_field := b_field g; b_op := b_op g; b_val := VInt (f_to_i64 n) |} else g
+            | _, _ => g end in
+  match o with
+  | Some v => op_eval (b_op g') v (b_val g')
+  | None => match b_op g' with ONe => true | _ => false end
+  end.
+
 (** derivations of bounded height through conjunctive rules on a single-valued, monotone store:
     level 0 = the facts; level h+1 = fire every rule whose conditions hold at level h *)
 Fixpoint level (h : nat) (rules : list brule) (f : facts) : facts :=
